@@ -165,7 +165,7 @@ def spec_assemble(case, linebuf=None):
 
 # ------------------------------------------------------------------ generators
 EXPRS = ["foo1", "foo2", "n[1-3]", "a,b", " x7 ", "h1 # comment", "n[01-03]-ib", "a1 a2", "c9\t", "z[8-10]",
-         "m[1,3]", "q", "host.dom", "r2d2", "\tt1", "k[5-6]x # tail # more", "n07,n08"]
+         "m[1,3]", "q", "host.dom", "r2d2", "\tt1", "k[5-6]x # tail # more", "n07,n08", "h2 #include B", "h3\t#include"]
 NOISE = ["", "#", "# comment", "\t", "   ", "#\t#include X", "#!shebang"]
 MALFORMED = ["#include", "#include ", "#include B C", "#includeB", " #include B", "#include B # c", "#Include B",
              "#include\rB", "#include B\r", "x #include B", "#include\t\tB\tz", "#includeB C"]
@@ -644,13 +644,15 @@ def run(ctx):
                 # every line length around the buffer boundaries x 3 line shapes
                 k = 0
                 for L in list(range(2040, 2057)) + list(range(4090, 4101)) + list(range(6138, 6146)):
-                    for shape in ("names", "one-name", "comment-tail"):
+                    for shape in ("names", "long-names", "comment-tail"):
                         if shape == "names":
                             line = long_line(rng, L)
-                        elif shape == "one-name":
-                            line = "h" * L
+                        elif shape == "long-names":
+                            # long names, but below hostlist.c's 1023-byte token limit (another property's defect)
+                            line = ",".join("h" * 500 for _ in range(L // 501 + 1))[:L]
+                            line = line.rstrip(",") + ("" if not line.endswith(",") else "z")
                         else:
-                            line = "host1 #" + "c" * (L - 7)
+                            line = "host1 #" + ",".join("c" * 99 for _ in range(L // 100 + 1))[:L - 7]
                         content = "first\n" + line + "\nlast\n"
                         cases.append({"stream": "long", "shape": "boundary", "disk": {"A": (True, content)},
                                       "fs": {"A": (True, content)}, "sources": [("f", "A")], "wargs": ["^A"],
